@@ -18,7 +18,7 @@ from gen import enums
 META = {
     "technique": "c2lean translation of the raw colliders and mju_makeFrame to Lean (regenerated every run) + Lean 4 proofs over the reals about the generated definitions (closed forms by unfolding and case split over every branch; Gram-Schmidt / Lagrange identity; clamp = nearest point lemmas; sqrt monotonicity) + bitwise translation validation (Lean Float vs compiled C) + property oracle on the real engine (two-geom models of all 21 primitive pairs, mj_collision and mj_geomDistance judged against closed-form signed distances, surface membership of the contact's two witness points, frame orthonormality)",
     "text": "Proved over the reals for all inputs, about the kernels as translated from the working tree: mju_makeFrame raises its error iff |x| < 1/2, otherwise its first axis is x/|x|; for a unit normal x and a tangent hint that is undefined (|y|^2 < 1/4, e.g. the zero tangent every primitive collider writes) or has a Gram-Schmidt residual of length >= mjMINVAL the frame is orthonormal, right-handed (det 1, z = x cross y) and its first axis is x (both branches of the y-axis fallback and the mjMINVAL guards of both normalisations); the residual hypothesis is shown necessary by a concrete counterexample. mjraw_SphereSphere: returns 0 iff |c2-c1|^2 > (margin+r1+r2)^2 and then leaves the contact untouched; otherwise (for margin+r1+r2 >= 0) a contact is returned exactly when the true signed distance |c2-c1|-r1-r2 is <= margin, dist equals that signed distance, dist <= margin, the normal is a unit vector in every case (including the coincident-centre fallback: normalised cross product of the z axes, or (1,0,0)), equals (c2-c1)/|c2-c1| and satisfies n.(c2-c1) = |c2-c1| > 0 (points from geom 1 to geom 2) when the centres are >= mjMINVAL apart, the position is c1 + n(r1 + dist/2) = the midpoint of the two surface points c1 + n r1 and c2 - n r2, whose difference is n*dist. mjraw_PlaneSphere: returns 0 iff (c-p).n > margin + r, otherwise dist = (c-p).n - r <= margin, normal = plane normal, tangent 0, position = midpoint of the sphere's lowest point and its foot on the plane (for a unit normal), and (c-p).n is the true distance of c from the plane (no plane point is closer). mjraw_SphereCapsule = mjraw_SphereSphere against the clamped projection of the sphere centre on the capsule axis; for a unit axis that point minimises the distance over the whole segment, hence dist is the true sphere-capsule signed distance; margin, unit normal, direction and position rules are inherited. mju_clampVec (n=3, the first step of mjraw_SphereBox): for positive half sizes the result lies in the box and is its nearest point; non-positive limits disable the clamp.",
-    "note": "Reals, not doubles: rounding is outside the proofs (translation validation is bitwise on Float; the oracle uses tolerance 1e-9 for the closed-form / natively computed pairs (observed <= 2e-11) and loose tolerances 6e-3 / 0.25 for distances / witness points of separated pairs that go through the iterative native CCD, whose accuracy belongs to C15; penetration depths of CCD pairs are not compared). NOT proved, covered by the engine oracle only: mjraw_CapsuleCapsule (c2lean refuses `con + n1` with a data-dependent offset), mjraw_SphereBox beyond its clamp step and mjraw_CapsuleBox (data-dependent indices), all mjc_* wrappers (mjModel*/mjData* access): plane-capsule, plane-box, plane-cylinder, sphere-cylinder, box-box, the GJK/EPA pairs with ellipsoids and cylinders (native CCD; libccd is stubbed in this build), mj_setContact, mj_geomDistance. Oracle scope: closed-form signed distance for plane-X (support function), sphere-{sphere,capsule,box,cylinder}, capsule-capsule, capsule-{box,cylinder} when separated (1-D convex minimisation of an exact SDF) and box-box when separated (vertex-face / edge-edge minimum, used for mj_geomDistance only); witness points pos -+ n dist/2 on the two surfaces for the closest contact (all contacts where every contact is a closest-point pair); plane contacts carry the plane normal; plane-capsule contacts are the two end-sphere contacts; plane-box contacts sit at corners; for the remaining convex pairs only unit normal / orthonormal right-handed frame / margin / direction (when separated) / mj_geomDistance symmetry are checked. Skipped as geometrically undetermined or ill-conditioned (stated, not hidden): witness/direction checks for coincident centres, a sphere centre on a capsule/cylinder axis, crossing capsule segments; closed-form comparisons when two axes make an angle 0 < sin < 1e-5 (the colliders normalise a vector of that length: accuracy eps/angle). `dist <= margin` is checked with the tree's semantics: colliders receive margin+gap, includemargin = margin, exclude = (dist >= includemargin). Margin test `>` vs `>=`: the theorems (sphereSphere_ret_one_iff, planeSphere_ret_zero_iff) fix the boundary as inside (contact iff true distance <= margin); the oracle contains exactly representable dist == margin configurations (Pythagorean centre offsets) that must produce a contact, so a rewrite to `>=` changes outputs and is reported (key c13:margin-boundary:*), while a rewrite that keeps every output keeps the oracle silent (it may still break the proof tie, which is then reported as no-failing-input-found). GENUINE DEFECTS of the tree, each reported by the oracle under ONE stable key (all reproduced on the real engine; everything the oracle finds inside the stated geometric zone of a defect is folded into its key): (1) c13:frame:plane-capsule-axis-parallel-to-normal -- mjc_PlaneCapsule passes the capsule axis as tangent hint; for a capsule standing along the normal of a plane whose normal is not orthogonal to (1,0,0) the Gram-Schmidt residual in mju_makeFrame vanishes, mju_normalize3 falls back to (1,0,0) and the contact frame is not orthonormal (model-side counterpart: theorem makeFrame_parallel_hint_not_orthonormal). (2) c13:capsule-capsule:parallel-early-return-not-closest -- the parallel-axes branch of mjraw_CapsuleCapsule returns as soon as both end points of the FIRST capsule yield contacts and never tests the end points of the second capsule: for a longer first capsule the reported distance is not the true signed distance (e.g. -0.25 instead of -0.5), depends on the geom order, and mj_geomDistance is not symmetric. (3) c13:plane-cylinder:flat-disk-threshold -- mjc_PlaneCylinder tests len_sqr >= mjMINVAL^2 on the vector axis*(axis.n) - n; for a cylinder whose axis IS the plane normal that vector is rounding noise of length ~2e-15 >= mjMINVAL, gets normalised and scaled by the radius, and the contact distance / position are off by a full radius (cylinder standing flat on a tilted plane). (4) c13:capsule-box:axis-through-box-reported-separated -- when the capsule's axis passes through the box (thin plate skewered by a capsule) mjraw_CapsuleBox reports no contact or a positive distance. (5) c13:box-box:contact-distance-not-geomdistance -- for separated boxes within the margin mjc_BoxBox reports the separation along its best SAT axis, smaller than the Euclidean distance returned by mj_geomDistance (verified against an exact polytope distance) when the closest features are edges/vertices. (6) c13:direction:ccd-normal-flipped-within-margin -- convex (native CCD) pairs that are separated but within the margin: some of the (multi-)contacts of mjc_Convex carry a normal pointing from the second geom to the first (mjc_fixNormal only runs on the libccd path). (7) c13:geomdist:ccd-coincident-centres-asymmetric -- mj_geomDistance through the native CCD with coincident geom centres returns a penetration depth in one geom order and ~0 in the other. (5)-(7) concern the convex narrow phase and overlap with C15. Observation, not asserted: a sphere-sphere pair 1e-7 inside margin+gap at a generic orientation produced no contact (the completeness check is therefore only claimed 1e-5 away from the boundary plus the exactly representable boundary scenes).",
+    "note": "Reals, not doubles: rounding is outside the proofs (translation validation is bitwise on Float; the oracle uses tolerance 1e-9 for the closed-form / natively computed pairs (observed <= 2e-11) and loose tolerances 6e-3 / 0.25 for distances / witness points of separated pairs that go through the iterative native CCD, whose accuracy belongs to C15; penetration depths of CCD pairs are not compared). NOT proved, covered by the engine oracle only: mjraw_CapsuleCapsule (c2lean refuses `con + n1` with a data-dependent offset), mjraw_SphereBox beyond its clamp step and mjraw_CapsuleBox (data-dependent indices), all mjc_* wrappers (mjModel*/mjData* access): plane-capsule, plane-box, plane-cylinder, sphere-cylinder, box-box, the GJK/EPA pairs with ellipsoids and cylinders (native CCD; libccd is stubbed in this build), mj_setContact, mj_geomDistance. Oracle scope: closed-form signed distance for plane-X (support function), sphere-{sphere,capsule,box,cylinder}, capsule-capsule, capsule-{box,cylinder} when separated (1-D convex minimisation of an exact SDF) and box-box when separated (vertex-face / edge-edge minimum, used for mj_geomDistance only); witness points pos -+ n dist/2 on the two surfaces for the closest contact (all contacts where every contact is a closest-point pair); plane contacts carry the plane normal; plane-capsule contacts are the two end-sphere contacts; plane-box contacts sit at corners; for the remaining convex pairs only unit normal / orthonormal right-handed frame / margin / direction (when separated) / mj_geomDistance symmetry are checked. Skipped as geometrically undetermined or ill-conditioned (stated, not hidden): witness/direction checks for coincident centres, a sphere centre on a capsule/cylinder axis, crossing capsule segments; closed-form comparisons when two axes make an angle 0 < sin < 1e-5 (the colliders normalise a vector of that length: accuracy eps/angle). `dist <= margin` is checked with the tree's semantics: colliders receive margin+gap, includemargin = margin, exclude = (dist >= includemargin). Margin test `>` vs `>=`: the theorems (sphereSphere_ret_one_iff, planeSphere_ret_zero_iff) fix the boundary as inside (contact iff true distance <= margin); the oracle contains exactly representable dist == margin configurations (Pythagorean centre offsets) that must produce a contact, so a rewrite to `>=` changes outputs and is reported (key c13:margin-boundary:*), while a rewrite that keeps every output keeps the oracle silent (it may still break the proof tie, which is then reported as no-failing-input-found). GENUINE DEFECTS of the tree, each reported by the oracle under ONE stable key (all reproduced on the real engine; everything the oracle finds inside the stated geometric zone of a defect is folded into its key): (1) c13:frame:plane-capsule-axis-parallel-to-normal -- mjc_PlaneCapsule passes the capsule axis as tangent hint; for a capsule standing along the normal of a plane whose normal is not orthogonal to (1,0,0) the Gram-Schmidt residual in mju_makeFrame vanishes, mju_normalize3 falls back to (1,0,0) and the contact frame is not orthonormal (model-side counterpart: theorem makeFrame_parallel_hint_not_orthonormal). (2) c13:capsule-capsule:parallel-early-return-not-closest -- the parallel-axes branch of mjraw_CapsuleCapsule returns as soon as both end points of the FIRST capsule yield contacts and never tests the end points of the second capsule: for a longer first capsule the reported distance is not the true signed distance (e.g. -0.25 instead of -0.5), depends on the geom order, and mj_geomDistance is not symmetric. (3) c13:plane-cylinder:flat-disk-threshold -- mjc_PlaneCylinder tests len_sqr >= mjMINVAL^2 on the vector axis*(axis.n) - n; for a cylinder whose axis IS the plane normal that vector is rounding noise of length ~2e-15 >= mjMINVAL, gets normalised and scaled by the radius, and the contact distance / position are off by a full radius (cylinder standing flat on a tilted plane). (4) c13:capsule-box:axis-through-box-reported-separated -- when the capsule's axis passes through the box (thin plate skewered by a capsule) mjraw_CapsuleBox reports no contact or a positive distance. (5) c13:box-box:contact-distance-not-geomdistance -- disjoint boxes within the margin: mjc_BoxBox reports the separation along its best SAT axis (matched to 1e-9 against an independent 15-axis SAT), smaller than the Euclidean distance returned by mj_geomDistance (verified against an exact polytope distance) when the closest features are edges/vertices (corner-to-corner it reports no contact at all). (5b) c13:box-box:contact-distance-above-true-distance -- disjoint boxes within the margin, face branch: the smallest contact distance is LARGER than the true distance / mj_geomDistance (the closest vertex is not among the clipped contact points); split off from (5) so that (5) only matches its SAT signature. (6) c13:geomdist:ccd-coincident-centres-asymmetric -- mj_geomDistance through the native CCD with coincident geom centres returns a penetration depth in one geom order and ~0 in the other (overlaps C15). Each fold requires the defect's numerical signature, not just its zone: (2) the value produced by the early return (end points of the first capsule vs the second segment), (3) closed form minus engine distance in (0.1,1] radius and only distance/witness/fromto consequences, (4) a non-negative reported distance, (5) the SAT value; any other failure of the same collider (unit normal, frame, margin, includemargin, geom order, a different wrong distance) keeps its own key. INFORMATION ONLY (ctx.extra observations, not a failure, because the property requires the first-to-second normal direction only for the analytically solvable pairs): native-CCD pairs that are separated but within the margin sometimes get (multi-)contacts from mjc_Convex whose normal points from the second geom to the first (mjc_fixNormal only runs on the libccd path); the direction is checked for native / closed-form pairs only. Observation, not asserted: a sphere-sphere pair 1e-7 inside margin+gap at a generic orientation produced no contact (the completeness check is therefore only claimed 1e-5 away from the boundary plus the exactly representable boundary scenes).",
 }
 
 P = "MjProof.C13."
